@@ -1,41 +1,35 @@
 /-
-  C13 — witnesses on the pinned tree (kept apart: they stop checking when the library is repaired,
+  C13 — witnesses on /repo HEAD (kept apart: they stop checking when the library is repaired,
   which is reported as "finding no longer reproduces", not as a violation).
 -/
 import Gozod.Proofs.C13
 import Gozod.Proofs.C13Typed
 namespace Gozod.C13W
-open Gozod.Tags Gozod.GenChain Gozod.Gen Gozod.C13
+open Gozod.Tags Gozod.GenChain Gozod.Gen Gozod.GenSem Gozod.C13
 
-def differs (x : Block × List GenCell) (rc : (List TRule × List Bool) × GenCell) : Bool :=
-  rc.2.status == .ok && x.1.probes.map (denote rc.2) != rc.1.2
+/-- the cell compiles, its chain is judged on every probe, and some verdict is not FromStruct's -/
+def differs (x : Block × GenBlock) (rc : (List TRule × List Bool) × GenCell) : Bool :=
+  rc.2.status == .ok &&
+  (match emitCell x.1.fty rc.2.rules with
+   | some ch => (x.1.probes.map (denoteChain ch)).all Option.isSome && decide (x.1.probes.map (denoteChain ch) ≠ rc.1.2.map some)
+   | none => false)
 
 theorem c13_equiv_full_false : ¬ c13_equiv_full := by
   intro h
-  have key : ∃ x ∈ zipTables, ∃ rc ∈ (refRows x.1).zip x.2, rc.2.status = .ok ∧ x.1.probes.map (denote rc.2) ≠ rc.1.2 := by
-    decide +kernel
-  obtain ⟨x, hx, rc, hrc, hs, hne⟩ := key
-  exact hne (h x hx rc hrc hs)
+  have key : ∃ x ∈ zipTables, ∃ rc ∈ rowsOf x, differs x rc = true := by decide +kernel
+  obtain ⟨x, hx, rc, hrc, hd⟩ := key
+  simp only [differs, Bool.and_eq_true, beq_iff_eq] at hd
+  obtain ⟨ch, he, hv⟩ := h x hx rc hrc hd.1
+  rw [he] at hd
+  simp only [Bool.and_eq_true, decide_eq_true_eq] at hd
+  exact hd.2.2 hv
 
-theorem c13_typechecks_full_false : ¬ c13_typechecks_full := by
-  intro h
-  have key : ∃ b ∈ genTable, ∃ c ∈ b, c.status ≠ .ok := by decide +kernel
-  obtain ⟨b, hb, c, hc, hne⟩ := key
-  exact hne (h b hb c hc)
-
-/-- each known class is inhabited by a cell on which the two schemas really differ, with the other
-    classes absent (since the C06 fixes 9a4a316 … d766956 no cell is a FromStruct finding any more: `refKnown` is empty);
-    and the type-check class is exact -/
+/-- each excluded class (defined on the input) is inhabited by a cell on which the two schemas really differ, the other
+    classes absent: F string `url,uuid`; F uint64 `min=18446744073709551615` (`refKnown` is empty since the C06 fixes) -/
 theorem c13_class_witnesses :
-    (∃ x ∈ zipTables, ∃ rc ∈ (refRows x.1).zip x.2, differs x rc = true ∧ dropsRule rc.2 = true ∧ refKnown rc.2 = false ∧ optionalOnRequired rc.2 = false ∧ specialCtorPtrNil rc.2 = false) ∧
-    (∃ x ∈ zipTables, ∃ rc ∈ (refRows x.1).zip x.2, differs x rc = true ∧ optionalOnRequired rc.2 = true ∧ refKnown rc.2 = false ∧ dropsRule rc.2 = false ∧ specialCtorPtrNil rc.2 = false) ∧
-    (∃ x ∈ zipTables, ∃ rc ∈ (refRows x.1).zip x.2, differs x rc = true ∧ specialCtorPtrNil rc.2 = true ∧ refKnown rc.2 = false ∧ dropsRule rc.2 = false ∧ optionalOnRequired rc.2 = false) ∧
-    (∀ b ∈ genTable, ∀ c ∈ b, compileKnown c = true → c.status ≠ .ok) := by
-  refine ⟨by decide +kernel, by decide +kernel, by decide +kernel, ?_⟩
-  have h : genTable.all (fun b => b.all fun c => !compileKnown c || c.status != .ok) = true := by decide +kernel
-  intro b hb c hc hk
-  have := List.all_eq_true.mp (List.all_eq_true.mp h b hb) c hc
-  simpa [hk] using this
+    (∃ x ∈ zipTables, ∃ rc ∈ rowsOf x, differs x rc = true ∧ secondFormat x.1.fty rc.2.rules = true ∧ refKnown x.1.fty rc.2.rules = false ∧ boundBeyondInt64 x.1.fty rc.2.rules = false) ∧
+    (∃ x ∈ zipTables, ∃ rc ∈ rowsOf x, differs x rc = true ∧ boundBeyondInt64 x.1.fty rc.2.rules = true ∧ refKnown x.1.fty rc.2.rules = false ∧ secondFormat x.1.fty rc.2.rules = false) := by
+  refine ⟨by decide +kernel, by decide +kernel⟩
 
 /-- the converse of `C13.c13_illtyped_rows_are_open`: every listed does-not-compile class still has a row of the kind × tag
     table that fails for exactly that reason — the `open:` lines of known-findings.txt are EXACTLY the classes of rows that do
